@@ -31,7 +31,11 @@ def install(world, pm_mod):
             if not r and world.int_at_scan:          # a signal delivered between is_alive() and the put of the reload action
                 world.int_at_scan = False; world.handlers[_signal.SIGINT](_signal.SIGINT, None)
             return r
-        def terminate(self): self.alive = False; self.code = -15 if getattr(self, 'code', None) is None else self.code
+        def terminate(self):
+            # SIGTERM starts a graceful shutdown: the worker finishes its running tasks first, so it is still alive until someone WAITS for it
+            # (join() without a timeout), or until the next tick at the latest
+            self.code = -15 if getattr(self, 'code', None) is None else self.code
+            if self.alive: self.terminating_since = world.tick
         def kill(self): self.alive = False; self.code = -9 if getattr(self, 'code', None) is None else self.code
         def close(self): pass
         @property
@@ -42,9 +46,17 @@ def install(world, pm_mod):
         def sentinel(self): return -1
         def join(self, timeout=None):
             if timeout is None: self.alive = False; self.reaped = True; self.joined = True
+            # with a timeout join() just returns once it has elapsed: a worker still finishing its tasks stays alive
     class FakeQueue:
-        def __init__(self, *a): self.items = []
-        def put(self, x): self.items.append(x)
+        def __init__(self, maxsize=0, *a, **kw): self.items = []; self.maxsize = kw.get('maxsize', maxsize)
+        def put(self, x):
+            # every put in these histories comes from the manager's own thread (its loop, or a signal handler running in it) and the manager is the only consumer:
+            # a put on a full bounded queue would block for ever
+            if self.maxsize is not None and self.maxsize > 0 and len(self.items) >= self.maxsize:
+                world.problems.append(f"C17: the action queue holds {len(self.items)} pending actions and has capacity {self.maxsize}: this put blocks the manager loop in its own thread for ever (no restart, no shutdown any more)")
+                world.problems.append(f"C18: the action queue holds {len(self.items)} pending actions and has capacity {self.maxsize}: this put blocks the manager loop in its own thread for ever (later SIGINT/SIGTERM never handled)")
+                raise KeyboardInterrupt("dead-lock on the bounded action queue")
+            self.items.append(x)
         def empty(self): return not self.items
         def get(self):
             x = self.items.pop(0); world.gets.append((type(x).__name__, getattr(x, 'worker_num', None), getattr(x, 'is_reload_all', None), world.tick))
@@ -82,16 +94,20 @@ def run_history(nworkers, max_fails, history, via_run_worker=False):
                 del deaths[p]
     def fake_sleep(_):
         check_state()
+        for p_ in world.procs:          # workers that were asked to terminate have finished their tasks by the next tick
+            if getattr(p_, 'terminating_since', None) is not None and p_.alive: p_.alive = False
         if world.tick >= len(history): raise StopHistory()
         dies, sig = history[world.tick]; world.tick += 1
         for slot in dies:
             if slot < len(mgr.workers) and mgr.workers[slot].alive: mgr.workers[slot].alive = False; deaths[mgr.workers[slot]] = world.tick - 1; deaths_total.append(slot)
         if sig == 'HUP': world.handlers[_signal.SIGHUP](_signal.SIGHUP, None)
+        elif sig == 'HUPx300':
+            for _ in range(300): world.handlers[_signal.SIGHUP](_signal.SIGHUP, None)          # a burst of reload requests inside one tick (a checkout touching a few hundred watched files)
         elif sig == 'INT': world.handlers[_signal.SIGINT](_signal.SIGINT, None)
         elif sig == 'TERM': world.handlers[_signal.SIGTERM](_signal.SIGTERM, None)
         elif sig == 'INT@scan': world.int_at_scan = True
     pm_mod.sleep = fake_sleep
-    args = WorkerArgs(broker='x:y', modules=[], workers=nworkers, max_fails=max_fails, configure_logging=False)
+    args = WorkerArgs(broker='x:y', modules=[], workers=nworkers, max_fails=max_fails, configure_logging=False, wait_tasks_timeout=0.5)          # a worker may need longer than that to finish (the fake keeps it alive until it is waited for)
     status = 'running'; raised = None; mgr = None
     if via_run_worker:          # through the CLI entry point taskiq.cli.worker.run.run_worker: it builds the manager, starts it and returns its status
         import taskiq.cli.worker.run as run_mod
@@ -110,6 +126,9 @@ def run_history(nworkers, max_fails, history, via_run_worker=False):
     except BaseException as e: raised = f"{type(e).__name__}: {e}"
     pr = world.problems
     if raised: pr.append(f"C18: the manager died with {raised}")
+    if any(g[0] == 'ShutdownAction' for g in world.gets) and not raised:          # the manager process exits now: multiprocessing's exit handler terminates every live DAEMONIC child
+        for p_ in world.procs:
+            if p_.alive and p_.daemon: world.signals.append((p_.pid, _signal.SIGTERM, p_.name, (p_.alive, p_.reaped)))
     # ---- C18: the failure status needs at least max_fails real worker deaths (restarts requested by reload-all never consume the budget)
     if status == -1 and max_fails >= 1 and len(deaths_total) < max_fails: pr.append(f"C18: failure status after only {len(deaths_total)} worker death(s) with max_fails={max_fails} (reload-all restarts were charged to the failure budget)")
     # ---- C18: budget
@@ -154,6 +173,10 @@ def run(sc):
             for hist in itertools.product(events, repeat=3):
                 pr = run_history(nworkers, max_fails, list(hist) + [((), None), ((), None)]); n += 1
                 if pr and len(fails) < 200: fails.append({'key': f"workers={nworkers} max_fails={max_fails} history={hist}", 'config': {'workers': nworkers, 'max_fails': max_fails, 'ticks': [list(map(str, h)) for h in hist]}, 'failed_clauses': pr[:5]})
+    for nworkers in (1, 2, 3):          # a burst: hundreds of reload requests inside one tick, then a quiet tick, then SIGINT
+        hist = [((), 'HUPx300'), ((), None), ((), 'INT')]
+        pr = run_history(nworkers, -1, list(hist) + [((), None), ((), None)]); n += 1
+        if pr: fails.append({'key': f"workers={nworkers} burst", 'config': {'workers': nworkers, 'max_fails': -1, 'ticks': [list(map(str, h)) for h in hist]}, 'failed_clauses': pr[:5]})
     for nworkers in (1, 2):          # the same through run_worker (shorter histories)
         subsets = [()] + [(i,) for i in range(nworkers)]
         events = [(d, s) for d in subsets for s in (None, 'HUP', 'INT')]
